@@ -81,6 +81,7 @@ class Opts:
         self.zero_adjust_bias = 0.0   # probability that a Multiply adjustment is the literal 0 (a stratum that receives / passes nothing)
         self.shared_labels_bias = 0.0  # probability that a later plain stratification reuses the stratum LABELS of an earlier one (yes/no under two different names)
         self.inf_adjust_bias = 0.0     # lower bound on the probability that a stratification adjusts infectiousness
+        self.param_split_all_bias = 0.0  # probability that every proportion of a literal split is replaced by a parameter of its own with that value
         self.split_bias = 0.0          # lower bound on the probability that a stratification carries a population split
         self.inexact_split_bias = 0.0  # probability that a literal split sums to one only within the API's tolerance (0.01), or that a split of two independent parameters is used (not checked by the API)
         self.shuffle_split_bias = 0.0  # probability that the population split is declared in another order than the strata
@@ -469,6 +470,10 @@ class Gen:
                 if last >= 0:
                     op["split"][-1][1] = C(last)                              # the literal split sums to one only within the tolerance
                     self.count("split:sum_within_tolerance")
+        if o.param_split_all_bias > 0 and "split" in op and all("c" in kv[1] for kv in op["split"]) and r.random() < o.param_split_all_bias:
+            for kv in op["split"]:
+                k_ = f"p{len(self.params)}"; self.params[k_] = Fr(kv[1]["c"]); kv[1] = P(k_)
+            self.count("split:every_proportion_a_parameter")
         if o.shuffle_split_bias > 0 and "split" in op and len(op["split"]) > 1 and r.random() < o.shuffle_split_bias:
             op["split"] = list(reversed(op["split"])) if len(op["split"]) == 2 or r.random() < 0.5 else op["split"][1:] + op["split"][:1]
             self.count("split:declared_in_other_order")
